@@ -384,7 +384,13 @@ def runReq (r : Report) (st : St) (sidx : Nat) (l : Line) (m p : String) (auth :
     if backtracked then r := r.addCover "hit-after-backtrack"
     if !(Spec.distinctNames cp) then r := r.addCover "hit-repeated-name-in-pattern"
     if ps.any fun kv => kv.2 = "" then r := r.addCover "hit-empty-segment-bound"
-  | .defaultNotAllowed a => r := r.addCover (if a.length > 1 then "405-several" else "405-one")
+  | .defaultNotAllowed a =>
+    r := r.addCover (if a.length > 1 then "405-several" else "405-one")
+    -- every supported method must be able to appear in the Allow header (class of seeded change C09-10)
+    for x in a do r := r.addCover ("405-allow-lists-" ++ x)
+    match a with
+    | [x] => r := r.addCover ("405-only-other-method-is-" ++ x)
+    | _ => pure ()
   | .customNotAllowed _ => r := r.addCover "405-custom-handler"
   | .defaultNotFound => r := r.addCover "404"
   | .customNotFound (.plain _) => r := r.addCover "404-custom-handler"
@@ -639,7 +645,7 @@ def runSection (r : Report) (s : Section) : Report := Id.run do
       -- engine.bindRoutes(router) / Server.Start() = handleError(engine.start(router)): bindRoutes, then listen
       -- model: what the engine reads through its (possibly aliasing) groups now; monitor: the routes as the
       -- callers wrote them with the options applied to a copy
-      let res := bindGroups st.pr.core st.api.groupRegs
+      let res := bindGroupsM st.pr.core st.api.groupRegs
       let err := res.2
       let tbl0 := st.tbl
       let specRegs := st.groups.flatMap Group.regs
